@@ -26,13 +26,15 @@ def _relocate(new, orig):
 def _ll_plus_sum(fn, target, listname, producer):
     """`<target> = log_likelihood + sum(<listname>)` where <listname> is assigned from
     self.model.<producer>(vector=...)  ->  the expression `log_likelihood + sum_<listname>`."""
-    cands = [a for a in T.assigns(fn, target) if isinstance(a, ast.Assign) and isinstance(a.value, ast.BinOp)]
+    def is_sum(n):
+        return isinstance(n, ast.Call) and T._dotted(n.func) == "sum"
+    cands = [a for a in T.assigns(fn, target) if isinstance(a, ast.Assign) and isinstance(a.value, ast.BinOp)
+             and (is_sum(a.value.right) or is_sum(a.value.left))]
     if len(cands) != 1:
-        raise T.TranslationError("expected exactly one `%s = <a> <op> <b>` (found %d)" % (target, len(cands)))
+        raise T.TranslationError("expected exactly one `%s = <a> <op> sum(...)` (found %d)" % (target, len(cands)))
     v = cands[0].value
     r = v.right
-    if not (isinstance(r, ast.Call) and T._dotted(r.func) == "sum" and len(r.args) == 1 and not r.keywords
-            and T._dotted(r.args[0]) == listname):
+    if not (is_sum(r) and len(r.args) == 1 and not r.keywords and T._dotted(r.args[0]) == listname):
         raise T.TranslationError("right operand of `%s = ...` is not sum(%s)" % (target, listname))
     src = T.assigns(fn, listname)
     if len(src) != 1 or not (isinstance(src[0].value, ast.Call) and T._dotted(src[0].value.func) == "self.model." + producer):
